@@ -17,6 +17,7 @@ import Mathlib.Tactic.Linarith
 set_option linter.unnecessarySeqFocus false
 set_option linter.unreachableTactic false
 set_option linter.unusedTactic false
+set_option linter.unusedSimpArgs false
 
 namespace Fir.Proofs.U8x2
 open Fir Fir.SimdU8x2 Fir.Gen Fir.Proofs
